@@ -1055,6 +1055,45 @@ def caltrack_stream(run, seed, nsets):
         if k == 0 and obs["orig"]["ok"]:
             run.sample({"stream": "caltrack", "tz": tz, "start": start, "rows": len(obs["orig"]["ts"]),
                         "predicted": int(np.isfinite(obs["orig"]["pred"]).sum())})
+    caltrack_zone_stream(run, model, tz, seed, 2 if nsets <= 10 else 6)
+
+
+def caltrack_zone_stream(run, model, tz, seed, nsets):
+    """HourlyCaltrackReportingData.from_series with the meter on the baseline's clock and the temperature feed labelled in
+    UTC / a third zone / the baseline's zone: for one feed, every usage alteration INCLUDING meter_data=None must give the
+    same prediction per instant; in the same-zone configuration the frame constructor must agree too"""
+    from opendsm.eemeter import HourlyCaltrackReportingData as R
+    rng = random.Random(seed + 101)
+    third = {"US/Pacific": "Europe/Berlin", "US/Eastern": "Europe/Berlin", "Europe/Berlin": "US/Eastern",
+             "Australia/Sydney": "Europe/Berlin"}[tz]
+    for k in range(nsets):
+        start = (pd.Timestamp("2022-01-01") + pd.Timedelta(days=rng.randrange(0, 330))).strftime("%Y-%m-%d")
+        ndays = rng.choice([5, 12, 25])
+        rep = fl.hourly_frame(rng, tz=tz, start=start, ndays=ndays)
+        electric = k % 2 == 0
+        for wz in ("UTC", third, tz):
+            case = {"stream": "caltrack_zones", "seed": seed, "tz": tz, "weather_zone": wz, "start": start, "ndays": ndays, "set": k}
+            temp = rep["temperature"].tz_convert(wz)
+            obs = {}
+            for name in ["orig", "scaled", "shuffled", "nan30", "zeros30", "allnan", "none"]:
+                if name == "none":
+                    u = None
+                else:
+                    u = alter(rep[["observed"]], name, seed % 1000 + k)["observed"]
+                o = observe(lambda: model.predict(R.from_series(u, temp, electric)))
+                obs[name] = o
+                run.count((vlib.sha(case), name))
+                run.dist("caltrack_zones_outcome", "ok" if o["ok"] else o["err"])
+            if wz == tz:
+                obs["frame"] = observe(lambda: model.predict(R(rep.copy(), electric)))
+                run.count((vlib.sha(case), "frame"))
+
+            def classify(a, b, wz=wz):
+                if wz not in ("UTC", tz) and "none" in (a, b):
+                    return "from-series-index-zone-depends-on-meter-presence"
+                return "unexplained"
+            run.dist("caltrack_zones", "meter %s / weather %s" % ("local", "UTC" if wz == "UTC" else ("local" if wz == tz else "third zone")))
+            pairwise(run, "caltrack", obs, {"stream": "fitted", "path": "from_series-zones"}, case, classify=classify)
 
 
 # ================================================================== corpus: witnesses of the refuted statements
@@ -1080,7 +1119,7 @@ def main():
         "of every variant compared with Model/HourlyFlow.v in Coq. daily/billing through the data classes (frame constructor and from_series) with hourly temperature rows, frames starting "
         "at 00/06/18 h, daily / hourly / monthly usage at 00 or 07 h, all alterations; oracle extended by: identical temperature "
         "in data.df on every stamp predicted in both runs; the meter-day index of the daily class compared with "
-        "Model/CounterfactualFlows.v meter_index_as_coded (stream mi). caltrack: one fitted model, sets of 3-45 days. "
+        "Model/CounterfactualFlows.v meter_index_as_coded (stream mi). caltrack from_series with the temperature feed labelled in UTC / a third zone / the baseline zone and the meter supplied, altered or None. caltrack: one fitted model, sets of 3-45 days. "
         "distinct = (case hash, variant); non-trivial = at least one finite temperature")
     run.assumptions += [
         "the usage column is altered before the public data class sees it; the data classes themselves (interpolation of hourly "
@@ -1173,6 +1212,8 @@ def main():
         for c in todo:
             if c.get("stream") == "caltrack":
                 caltrack_stream(run, c["seed"], c["set"] + 1)
+            if c.get("stream") == "caltrack_zones":
+                caltrack_stream(run, c["seed"], 1)
         run.finish()
 
     # corpus first
